@@ -1,9 +1,9 @@
 #!/bin/bash
 # Literal procedure of the brief: apply each seeded patch to /repo itself, run the own-property check with ./check, undo.
 set -u
-OUT=/verif/scratch/confirm_on_repo.txt; : > $OUT
+OUT=${CONFIRM_OUT:-/verif/scratch/confirm_on_repo.txt}; : > $OUT
 export VERIF_DIR_SAVE=/verif
-for d in /verif/seeded/*/; do
+for d in /verif/seeded/${SEED_GLOB:-*}/; do
   name=$(basename $d); prop=$(python3 -c "import json;print(json.load(open('$d/meta.json'))['breaks_property'])")
   cd /repo; [ -n "$(git status --porcelain --untracked-files=no)" ] && { echo "repo dirty" >> $OUT; exit 2; }
   git apply $d/patch.diff || { echo "$name: patch failed" >> $OUT; continue; }
